@@ -642,6 +642,20 @@ def stepLine (s : St) (l : Array String) : St :=
         | none => s := s.setFail (.diverge s!"routing-polygon tie after {s.lastOp}: obstacle {o.id} not reported")
       -- `processTransaction` also runs (with an empty action list) when a routing parameter was set since
       -- the last transaction (`m_settings_changes`; the ActionQueue model leaves settings out)
+      -- coverage of the branches of the could-be-shorter estimate (connectors that are tested: polyline, routed,
+      -- flag down when the transaction starts)
+      match s.pendingTxn with
+      | some pre =>
+        for a in sortActions pre.queue do
+          if a.kind == .remove || a.kind == .move then
+            for c in s.rst.conns do
+              if c.poly && !c.route.isEmpty && !c.needsReroute then
+                match c.route.head?, c.route.getLast? with
+                | some st, some en =>
+                  for e in AdaptaVerif.Check.Route.polyEdges (polysOf s.rpPrev a.id) do
+                    s := s.bump ("estimate." ++ Reroute.sideBranch st en e.1 e.2)
+                | _, _ => pure ()
+      | none => pure ()
       let decided := match s.pendingTxn with
         | some pre => some (Reroute.flagTxn lt3 (polysOf s.rpPrev) (polysOf s.rpCur) (sortActions pre.queue) s.rst)
         | none => if s.pendingSettings then some (Reroute.flagTxn lt3 (polysOf s.rpPrev) (polysOf s.rpCur) [] s.rst) else none
